@@ -3,6 +3,7 @@ partial result (JSON) which check merges into evidence/<ID>.json."""
 
 VSIM = "{BIN}/vsim"
 VNATIVE = "{BIN}/vnative"
+VGEN = ["python3-vt", "{VERIF}/tools/vgen.py"]
 
 NATIVE_NOTE = "Trusts: rustc; the Linux kernel's mmap/mprotect semantics and /proc/self/maps; symbol interposition by the static linker (calibrated at every worker start: a plain install must be seen to call mmap, mprotect and __clear_cache, else exit 2); the x86-64 mini-decoder (cross-checked against llvm-mc in `vsim selftest`). x86-64 Linux only; other OS layers (mach_vm_*, VirtualAlloc/Protect) are not compiled here."
 
@@ -42,6 +43,7 @@ PLAN = {
         "packages": ["vnative"],
         "engines": [
             {"name": "n-times", "argv": [VNATIVE, "times", "--property", "C06"]},
+            {"name": "g-arms", "argv": VGEN + ["c08", "--property", "C06", "--only-times"]},
         ],
     },
     "C07": {
@@ -54,6 +56,12 @@ PLAN = {
         "packages": ["vnative"],
         "engines": [
             {"name": "n-layout", "argv": [VNATIVE, "layout", "--property", "C11"]},
+        ],
+    },
+    "C08": {
+        "packages": [],
+        "engines": [
+            {"name": "g-arms", "argv": VGEN + ["c08", "--property", "C08"]},
         ],
     },
     "C09": {
@@ -113,6 +121,8 @@ PLAN = {
 }
 
 ENGINES = [
+    {"name": "vgen (G)", "path": "/verif/tools/vgen.py", "serves_properties": ["C06", "C08", "C09", "C10"],
+     "kind_free_text": "configurations generated as Rust source (one binary per fake! arm parsed from macros.rs at check time; families of function-pointer types), compiled against the current tree with cargo --keep-going --message-format=json, driven by Hypothesis-generated scripts against reference models"},
     {"name": "vnative (N)", "path": "/verif/harness/vnative", "serves_properties": ["C01", "C02", "C03", "C04", "C05", "C10", "C11", "C12", "C13", "C14", "C17"],
      "kind_free_text": "proptest driver + isolated worker process (ASLR off) executing generated cases against the real crate: synthetic code arenas at generated addresses, executable-level interposition of mmap/munmap/mprotect/__clear_cache with fault/layout plans and pause points, executable-memory snapshots, x86-64 mini-decoder, assembly probes"},
     {"name": "vsim (S1/S2)", "path": "/verif/harness/vsim", "serves_properties": ["C01", "C10", "C11", "C13", "C15", "C16", "C17", "C02"],
@@ -177,6 +187,13 @@ META = {
         "technique": "property-based fault injection: generated address-space layouts around the target (full / one free page at every offset class incl. the extremes / sparse; occupied hints answered by far fallback, MAP_FAILED or an adversarial in-range page), realised through the interposer's layout model and with the real kernel (PROT_NONE reservation with punched holes); oracle = history invariant over the mmap/munmap log + decoded entry branch",
         "text": "1.6*10^3 (quick) / 10^5 (thorough) generated (target, layout, fallback behaviour, realisation) cases incl. targets below 128 MiB (window clipped at zero) and page-aligned targets. Success: the entry decodes to a branch into the single mapping that was kept, every other mapping obtained during the search was given back with its own address and length, and the call reaches the fake. Panic: target untouched, nothing left mapped, nothing unmapped twice. x86-64's rel32 reach exceeds the search window, so finite reach is decided for AArch64 in simulation (s2-arm64 engine when present).",
         "note": NATIVE_NOTE + " That installation succeeds whenever a free page exists is not demanded (refusal rate is reported in evidence only).",
+    },
+    "C08": {
+        "level": "exploration",
+        "design_ref": "DESIGN.md §4 C08, §2.3",
+        "technique": "generated-source property-based testing: every arm of macro_rules! fake is instantiated from its own matcher, compiled as its own binary against the working tree, and driven by Hypothesis-generated call scripts; oracle = one common reference model parameterised only by the arm's options (exhaustive over arms, random over scripts)",
+        "text": "All arms found in the working tree at check time (52 today) x 40 (quick) / 1500 (thorough) generated scripts of 1..12 calls with run-time generated `when` threshold, assign and returns constants and budget N: every arm must compile for a well-typed use (a compile error attributed to the expansion of fake! is a violation), `when` guards the call, a rejected call (by `when` or by the budget) runs neither `assign` nor `returns`, `assign` runs before `returns` is evaluated, `returns` is evaluated exactly once per admitted call with that call's arguments and the constant as set for that call, unit arms return (), `times` is enforced and verified at scope exit naming both numbers; for extern C/system arms a predicted panic is the last call and observed as the abort of the child with its message.",
+        "note": "Trusts: rustc + cargo JSON diagnostics (spans[].expansion.macro_decl_name); Hypothesis; my token-tree scanner of macro_rules (an arm shape it does not understand is counted as unsupported, never a violation; a compile error outside the macro expansion is exit 2).",
     },
     "C09": {
         "level": "exploration",
